@@ -171,6 +171,7 @@ func main() {
 	budget := flag.Duration("budget", 0, "wall-clock budget for runs")
 	keep := flag.Bool("keep", false, "keep scratch dir")
 	noShrink := flag.Bool("noshrink", false, "do not shrink")
+	warm := flag.Bool("warm", false, "only instrument and build the harness (fills the Go build cache), no runs, no evidence")
 	patch := flag.String("patch", "", "apply this patch to /repo while building (reverted right after the build)")
 	if len(os.Args) < 2 {
 		die(2, "usage: check <ID> [--tier quick|thorough] [--replay file] [--selftest]")
@@ -220,6 +221,10 @@ func main() {
 		os.Exit(code)
 	}
 
+	if *warm {
+		fmt.Printf("check %s: harness built in %.1fs\n", id, buildS)
+		exit(0)
+	}
 	if *replay != "" {
 		exit(doReplay(b, id, *replay))
 	}
@@ -304,7 +309,7 @@ func main() {
 				total.Stalls += sum.Stalls
 				total.Idles += sum.Idles
 				total.Tasks += sum.Tasks
-				total.VirtualNs += sum.VirtualNs
+				total.VirtualS += sum.VirtualS
 				total.Nontrivial += sum.Nontrivial
 				if sum.MaxSteps > total.MaxSteps {
 					total.MaxSteps = sum.MaxSteps
@@ -380,7 +385,7 @@ func main() {
 			"nontrivial_runs":     total.Nontrivial,
 			"runs_per_hour":       int(float64(total.Runs) / runDur * 3600),
 			"seeds_explored":      total.Runs,
-			"simulated_time_s":    float64(total.VirtualNs) / 1e9,
+			"simulated_time_s":    total.VirtualS,
 			"scheduling_points":   total.Steps,
 			"tasks_created":       total.Tasks,
 			"max_steps_per_run":   total.MaxSteps,
@@ -425,7 +430,7 @@ func main() {
 		}
 	}
 	fmt.Printf("check %s tier=%s seed=%d: %d runs (%d non-trivial, %d distinct), %d scheduling points, %.0f s simulated, %d switches, %d stalls, wall %.1fs\n",
-		id, *tier, seed, total.Runs, total.Nontrivial, len(hashes), total.Steps, float64(total.VirtualNs)/1e9, total.Switches, total.Stalls, wall)
+		id, *tier, seed, total.Runs, total.Nontrivial, len(hashes), total.Steps, total.VirtualS, total.Switches, total.Stalls, wall)
 	if violations > 0 {
 		fmt.Printf("VIOLATION property=%s replay=%s\n", id, replayPath)
 		exit(1)
